@@ -12,6 +12,12 @@ if r.returncode != 0:
     print("patch does not apply:", r.stderr)
     sys.exit(2)
 res = {}
+# evidence/ and replays/ describe the unchanged tree; keep them out of the way while the patch is applied
+import shutil, tempfile
+keep = tempfile.mkdtemp(prefix="verif-keep-")
+for sub in ("evidence", "replays"):
+    if os.path.isdir(os.path.join(ROOT, sub)):
+        shutil.copytree(os.path.join(ROOT, sub), os.path.join(keep, sub))
 try:
     for p in props:
         t = time.time()
@@ -31,5 +37,20 @@ finally:
     subprocess.run(["git", "-C", "/repo", "checkout", "--", "."], check=True)
     subprocess.run(["git", "-C", "/repo", "clean", "-fdq", "tests/"], check=False)
     subprocess.run(["cargo", "build", "--offline"], cwd=os.path.join(ROOT, "harness"), capture_output=True)
+    subprocess.run([sys.executable, os.path.join(ROOT, "tools", "extract_consts.py")], capture_output=True)
+    # keep the replays of this run next to the result, then restore the clean tree's evidence and replays
+    rp = os.path.join(d, "replays")
+    shutil.rmtree(rp, ignore_errors=True)
+    os.makedirs(rp, exist_ok=True)
+    for p in props:
+        named = [l.split("replay=")[1].split()[0] for l in res.get(p, {}).get("lines", []) if l.startswith("VIOLATION") and "replay=" in l]
+        for f in named[:3]:
+            if os.path.isfile(f) and os.path.getsize(f) < 100000:
+                shutil.copy(f, os.path.join(rp, os.path.basename(f)))
+    for sub in ("evidence", "replays"):
+        if os.path.isdir(os.path.join(keep, sub)):
+            shutil.rmtree(os.path.join(ROOT, sub), ignore_errors=True)
+            shutil.copytree(os.path.join(keep, sub), os.path.join(ROOT, sub))
+    shutil.rmtree(keep, ignore_errors=True)
 json.dump({"checks": res, "caught_by": [p for p, v in res.items() if v["rc"] != 0]}, open(os.path.join(d, "result.json"), "w"), indent=1)
 print("caught by:", [p for p, v in res.items() if v["rc"] != 0])
